@@ -358,7 +358,11 @@ class Quantity:
 
         if category.__class__ is OrderedDict:
             assert unit is None
-            self._category_to_unit_and_exps = category
+            # Own copy with list entries: the entries given may be tuples (documented form of
+            # ObtainQuantity) while the unit matching of the operations works on [unit, exp] lists.
+            self._category_to_unit_and_exps = OrderedDict(
+                (cat, list(unit_and_exp)) for (cat, unit_and_exp) in category.items()
+            )
             self._is_derived = True
 
             rep_and_exp: OrderedDict[Any, Any] = OrderedDict()
